@@ -36,7 +36,11 @@ func bookKey(filename string) string {
 	if i := strings.Index(b, "#"); i >= 0 {
 		b = b[:i]
 	}
-	return strings.TrimSuffix(b, filepath.Ext(b))
+	b = strings.TrimSuffix(b, filepath.Ext(b))
+	if b == "ZONE1" {
+		b = "Zone2" // the second book is written as ZONE1 in some cases (see runMergeCase)
+	}
+	return b
 }
 
 func (s *orderSched) yield(site, key string) {
@@ -100,8 +104,13 @@ func runMergeCase(shape string, books [][]mergeRow, order []string) string {
 			grid = append(grid, []string{r.id, r.name})
 		}
 		bk := bookSpec{Name: "Zone" + strconv.Itoa(b+1), Sheets: []sheetSpec{{Name: "Conf", Rows: grid}}}
+		if b == 1 && len(books) >= 3 {
+			// a secondary book whose name differs from the primary's only in letter case: it is another workbook
+			// (sorted before Zone3…, so the book order stays the index order)
+			bk.Name = "ZONE1"
+		}
 		if b == 0 {
-			bk.Sheets[0].Meta = map[string]string{"Merger": "Zone*.csv"}
+			bk.Sheets[0].Meta = map[string]string{"Merger": "Z*.csv"}
 		} else {
 			bk.NoMeta = true
 		}
